@@ -231,6 +231,11 @@ def generate_coq(all_specs):
                     raise KeyError("no assignment")
                 term = "[" + "; ".join(coq_string_bytes(t) for t in rhs) + "]"
                 comment = " | ".join(rhs)
+            elif kind == "assign_count":
+                # how many times func assigns to (or increments / decrements) lhs: 0 = never written there
+                fn = f["funcs"][s["func"]]
+                typ = "N"
+                term = "(%d)%%N" % sum(1 for a in fn.get("assigns", []) if a["lhs"] == s["lhs"])
             elif kind == "has_call":
                 fn = f["funcs"][s["func"]]
                 typ = "bool"
